@@ -195,6 +195,27 @@ def case(args) -> dict:
                             results[iface] = "HANG"
                         except Exception as e:  # pylint: disable=broad-except
                             results[iface] = f"raises {type(e).__name__}"
+                        # the same selection on a shuffled pass (the option
+                        # selects shards, shuffling only reorders them)
+                        if single and want is not None and iface != "tf" \
+                                and isinstance(results[iface], list):
+                            out["cells"] += 1
+                            try:
+                                got2 = sorted(D.with_alarm(
+                                    90, lambda: D.ids(ds_, "train", iface,
+                                                      shuffle=3, **kw)))
+                            except Exception as e:  # pylint: disable=broad-except
+                                got2 = f"raises {type(e).__name__}"
+                            if got2 != sorted(want):
+                                out["bad"].append(
+                                    ({"symptom": "single-option-shuffled",
+                                      "iface": iface},
+                                     f"{fmt}/{lname} shards={k} filter={pk} "
+                                     f"type_limit={n} shuffle=3: {iface} "
+                                     f"yields {got2}, examples of the "
+                                     f"selected shards are {sorted(want)}",
+                                     {"iface": iface, "k": k, "pk": pk,
+                                      "n": n}))
                     desc = (f"{fmt}/{lname} shards={k} filter={pk} "
                             f"type_limit={n}")
                     for iface, got in results.items():
@@ -265,7 +286,8 @@ def run(ctx):
         "cell = (dataset, shards k in None,1..S+1, predicate in None/none/"
         "all/some/by-group/no-metadata, custom_metadata_type_limit in "
         "None,1,2,S+1, interface accepting the options); single options are "
-        "compared with the documented meaning computed from the known shard "
+        "compared (unshuffled and with shuffle=3) with the documented "
+        "meaning computed from the known shard "
         "contents, combinations are compared across interfaces, an empty "
         "selection must raise in every interface")
     ctx.cov["exhaustive"] = True
